@@ -228,6 +228,7 @@ type modeStats struct {
 	Workers     int     `json:"worker_processes"`
 	Crashes     int     `json:"crashes"`
 	Restarts    int     `json:"restarts"`
+	Recycles    int     `json:"recycles,omitempty"`
 	WallS       float64 `json:"wall_s"`
 }
 
@@ -330,6 +331,9 @@ type workerResult struct {
 	crashed  bool
 	timedOut bool
 	done     bool
+	// recycleAt is set when the worker ended voluntarily because its heap had grown
+	// (run-time built types are never freed): the shard continues in a fresh process.
+	recycleAt string
 }
 
 // runOne runs one worker process to completion and folds its stdout into rs.
@@ -452,6 +456,8 @@ func (rs *runState) parseOut(path, mode, witnessName string, res *workerResult) 
 					lastSnap = m
 				case "done":
 					res.done = true
+				case "recycle":
+					res.recycleAt = fmt.Sprint(m["at"])
 				case "digest":
 					name := fmt.Sprint(m["sub"], "/", m["name"])
 					rs.mu.Lock()
@@ -534,6 +540,7 @@ func (rs *runState) mergeDistinct(path string) {
 func (rs *runState) runShard(mode string, shard, nshards int, wall time.Duration) {
 	resume := ""
 	ms := rs.perMode[mode]
+	crashes := 0
 	for attempt := 0; ; attempt++ {
 		tag := fmt.Sprintf("%s.s%d.a%d", mode, shard, attempt)
 		dist := filepath.Join(rs.runDir, tag+".dist")
@@ -554,8 +561,16 @@ func (rs *runState) runShard(mode string, shard, nshards int, wall time.Duration
 			return
 		}
 		if !res.crashed {
+			if res.recycleAt != "" {
+				rs.mu.Lock()
+				ms.Recycles++
+				rs.mu.Unlock()
+				resume = res.recycleAt
+				continue
+			}
 			return
 		}
+		crashes++
 		rs.mu.Lock()
 		ms.Crashes++
 		rs.mu.Unlock()
@@ -585,7 +600,7 @@ func (rs *runState) runShard(mode string, shard, nshards int, wall time.Duration
 			rs.viols = append(rs.viols, v)
 			rs.mu.Unlock()
 		}
-		if attempt >= 60 {
+		if crashes > 60 {
 			rs.mu.Lock()
 			rs.inconclusive = append(rs.inconclusive, fmt.Sprintf("%s shard %d: more than 60 crashes, shard abandoned at %s#%d", mode, shard, jsub, jidx))
 			rs.mu.Unlock()
